@@ -245,8 +245,9 @@ func (f *TimeBucketInfo) GetVariableRecordLength() int32 {
 	f.once.Do(f.initFromFile)
 
 	if f.recordType == VARIABLE && f.variableRecordLength == 0 {
-		// Variable records use the raw element sizes plus a 4-byte trailer for interval ticks
-		f.variableRecordLength = int32(f.getFieldRecordLength()) + intervalTicksLenBytes
+		// Variable records use the raw element sizes plus a 4-byte trailer for interval ticks.
+		// Not cached in f: a TimeBucketInfo is shared by concurrent writers and readers.
+		return int32(f.getFieldRecordLength()) + intervalTicksLenBytes
 	}
 	return f.variableRecordLength
 }
